@@ -14,25 +14,32 @@
 // Nothing is assumed about `answer`: the contracts below hold for every way the oracle may answer, i.e. for every
 // poll index at which it may start (or stop) saying "stop".
 //
-// Contract, per function (labels C13.wd.<fn>.<what>):
+// Contract, per function (labels C13.wd.<fn>.<what>; <fn> = CallDataCopy | CodeCopy | ExtCodeCopy | ReturnDataCopy | store_return_data):
 //   stopped_at_the_first_stop_answer   Err(StoppedByWatchdog) is returned only if the LAST poll made by this call answered
 //                                      stop and every earlier poll of this call answered continue: the error is raised at
 //                                      that very poll, no further poll is made
 //   every_poll_continued_unless_stopped  any other outcome (Ok, or another error) only if EVERY poll made by this call
-//                                      answered continue.  Together: Err(StoppedByWatchdog) <==> some poll made by this
-//                                      call answered stop (lemma C13.wd.stop_iff_some_poll_answered_stop)
+//                                      answered continue
+//   stopped_iff_some_poll_answered_stop  Err(StoppedByWatchdog) <==> some poll made by this call answered stop
+//                                      (also as a lemma over the two clauses above: C13.wd.stop_iff_some_poll_answered_stop)
 //   polls_once_per_interval            on Ok the number of polls made is EXACTLY ceil(iterations / poll_every) where
 //                                      iterations = ceil(min(size, limit) / 32) for a constant size operand (limit = the
 //                                      configured single-operation limit for CALLDATACOPY / RETURNDATACOPY / return data,
-//                                      CONTRACT_MAXIMUM_SIZE_BYTES for CODECOPY / EXTCODECOPY; `size` = the low 64 bits
-//                                      of the constant, as `usize::from(&KnownWord)` gives them), 0 for a symbolic size;
-//                                      on every outcome it is at most that
+//                                      CONTRACT_MAXIMUM_SIZE_BYTES for CODECOPY / EXTCODECOPY; `size` = what
+//                                      `usize::from(&KnownWord)` makes of the constant, its low 64 bits), 0 for a symbolic
+//                                      size (one symbolic store, no loop).  The first poll comes BEFORE the first word is
+//                                      copied: one poll for a single iteration, none for an empty copy.
+//   never_more_polls_than_promised     on every outcome (stopped, other error) it is at most that
 //   operands_consumed_nothing_pushed   the operands are popped, nothing is pushed, whatever the outcome
-//   modulus_not_zero (C01)             `count % polling_interval` under the precondition poll_every() >= 1
+//   loop.*                             the invariant of the desugared loop: offset = 32 * count; it ends after all steps; polls so
+//                                      far = ceil(count / poll_every); it goes on only if every poll so far answered continue
+//   modulus_not_zero (C01)             `count % polling_interval` under the PRECONDITION poll_every() >= 1 (declared on the
+//                                      stand-in trait method `Opcode::execute` and on `store_return_data`); overflow of the
+//                                      loop bookkeeping is an implicit obligation
 //
 // The `for (count, internal_offset) in (0..size_limit).step_by(32).enumerate()` loop is outside Verus (StepBy, Enumerate).
 // It is desugared by the declared rewrite R-STEPBY-ENUM into a `while` loop with an explicit counter and offset; the loop
-// BODY is carried over verbatim by a `$1` wildcard (poll condition, error construction, the copy itself).
+// BODY ($1: poll condition, error construction, the copy itself) and the step ($2) are carried over verbatim.
 use vstd::prelude::*;
 use std::sync::Arc;
 //@dropped memory.rs: everything except the four *Copy::execute bodies; control.rs: everything except store_return_data (Call::execute / DelegateCall::execute, its two callers, are not under contract: they forward its error with `?` before pushing anything); every opcode's min_gas_cost / arg_count / as_text_code / as_byte
@@ -355,6 +362,10 @@ pub open spec fn every_poll_continued(before: &VM, after: &VM) -> bool {
     &&& after.polls() >= before.polls()
     &&& forall|k: nat| before.polls() <= k < after.polls() ==> !answer(k)
 }
+/// some poll made between the two states answered stop
+pub open spec fn some_poll_answered_stop(before: &VM, after: &VM) -> bool {
+    exists|k: nat| before.polls() <= k < after.polls() && answer(k)
+}
 /// iterations of the copy loop for a size operand `size` under `limit`: a constant size is bounded by the limit and
 /// copied word by word; a symbolic size is one symbolic store (no loop)
 pub open spec fn iterations_for(size: RSV, limit: usize) -> nat {
@@ -362,23 +373,6 @@ pub open spec fn iterations_for(size: RSV, limit: usize) -> nat {
         RSVD::KnownData { value } => copy_iterations(kw_usize(value) as nat, limit as nat),
         _ => 0,
     }
-}
-/// the outcome clauses shared by the five functions; `n` = iterations of the loop for this call
-pub open spec fn watchdog_contract(before: &VM, after: &VM, r: ExecuteResult, n: nat) -> bool {
-    &&& stopped(r) ==> stopped_at_first_stop(before, after)
-    &&& !stopped(r) ==> every_poll_continued(before, after)
-    &&& r is Ok ==> after.polls() - before.polls() == polls_due(n, before.interval() as nat)
-    &&& after.polls() - before.polls() <= polls_due(n, before.interval() as nat)
-    &&& after.interval() == before.interval()
-}
-/// loop invariant of the desugared copy loop (state `now`, `count` iterations done, next offset `offset`)
-pub open spec fn copy_loop_inv(start: &VM, now: &VM, count: usize, offset: usize, size_limit: usize, every: usize) -> bool {
-    &&& every == start.interval() && every >= 1 && now.interval() == start.interval()
-    &&& offset < size_limit ==> offset as nat == 32 * (count as nat)
-    &&& offset >= size_limit ==> count as nat == steps_of_32(size_limit as nat)
-    &&& count as nat <= steps_of_32(size_limit as nat)
-    &&& now.polls() - start.polls() == polls_due(count as nat, every as nat)
-    &&& every_poll_continued(start, now)
 }
 } // verus!
 }
@@ -399,10 +393,10 @@ broadcast use lemma_handle_resolved;
 //@extract file=src/opcode/memory.rs path="impl Opcode for CallDataCopy|fn execute"
 //@ret r
 // R-STEPBY-ENUM: `for (c, o) in (0..n).step_by(32).enumerate() { BODY }` is `c = 0; o = 0; while o < n { BODY; c += 1; o += 32 }`
-// with the addition checked (the range iterator ends when the next offset does not exist); BODY ($1) is carried over verbatim
+// with the addition checked (the range iterator ends when the next offset does not exist); BODY ($1) and the step ($2) are carried over verbatim
 //@rw R-STEPBY-ENUM
 //@old
-for (count, internal_offset) in (0..size_limit).step_by(32).enumerate() {
+for (count, internal_offset) in (0..size_limit).step_by($2).enumerate() {
 $1
             }
         } else {
@@ -412,13 +406,14 @@ let mut count: usize = 0;
             while internal_offset < size_limit {
 $1
                 count = count + 1;
-                internal_offset = match internal_offset.checked_add(32) { Some(next) => next, None => usize::MAX };
+                internal_offset = match internal_offset.checked_add($2) { Some(next) => next, None => usize::MAX };
             }
         } else {
 //@spec
         ensures
             stopped(r) ==> stopped_at_first_stop(old(vm), final(vm)),                                                     //@ob C13.wd.CallDataCopy.stopped_at_the_first_stop_answer
             !stopped(r) ==> every_poll_continued(old(vm), final(vm)),                                                      //@ob C13.wd.CallDataCopy.every_poll_continued_unless_stopped
+            stopped(r) <==> some_poll_answered_stop(old(vm), final(vm)),                                                  //@ob C13.wd.CallDataCopy.stopped_iff_some_poll_answered_stop
             r is Ok ==> old(vm).has_thread() && old(vm).stack().len() >= 3 && final(vm).polls() - old(vm).polls()
                 == polls_due(iterations_for(*item(old(vm).stack(), 3), old(vm).config.single_memory_operation_size_limit), old(vm).interval() as nat),      //@ob C13.wd.CallDataCopy.polls_once_per_interval
             old(vm).has_thread() && old(vm).stack().len() >= 3 ==> final(vm).polls() - old(vm).polls()
@@ -428,10 +423,15 @@ $1
             final(vm).interval() == old(vm).interval() && final(vm).config == old(vm).config,
 //@loop 1
                 invariant
-                    copy_loop_inv(old(vm), vm, count, internal_offset, size_limit, polling_interval),
+                    polling_interval == old(vm).interval() && polling_interval >= 1 && vm.interval() == old(vm).interval(),
+                    internal_offset < size_limit ==> internal_offset as nat == 32 * (count as nat),                 //@ob C13.wd.CallDataCopy.loop.offset_is_32_times_count
+                    internal_offset >= size_limit ==> count as nat == steps_of_32(size_limit as nat),               //@ob C13.wd.CallDataCopy.loop.ends_after_all_steps
+                    count as nat <= steps_of_32(size_limit as nat),
+                    vm.polls() - old(vm).polls() == polls_due(count as nat, polling_interval as nat),               //@ob C13.wd.CallDataCopy.loop.polls_once_per_interval
+                    every_poll_continued(old(vm), vm),                                                              //@ob C13.wd.CallDataCopy.loop.goes_on_only_if_every_poll_continued
                     vm.has_thread() && vm.stack() == old(vm).stack().subrange(0, old(vm).stack().len() - 3) && vm.config == old(vm).config,
                     old(vm).has_thread() && old(vm).stack().len() >= 3,
-                    steps_of_32(size_limit as nat) == iterations_for(*item(old(vm).stack(), 3), old(vm).config.single_memory_operation_size_limit),
+                    steps_of_32(size_limit as nat) == iterations_for(*item(old(vm).stack(), 3), old(vm).config.single_memory_operation_size_limit),      //@ob C13.wd.CallDataCopy.loop.iterations_are_those_of_the_bounded_size
                 decreases (if internal_offset < size_limit { size_limit - internal_offset } else { 0 }),
 //@proof loopstart #1
                 proof {
@@ -442,8 +442,6 @@ $1
                 }
 //@proof entry
         proof { lemma_polls_due_zero(vm.interval() as nat); }
-//@proof before "let polling_interval"
-            proof { lemma_steps_of_32(size_limit as nat, 0); }
 //@end
 }
 
@@ -454,10 +452,10 @@ $1
 //@extract file=src/opcode/memory.rs path="impl Opcode for CodeCopy|fn execute"
 //@ret r
 // R-STEPBY-ENUM: `for (c, o) in (0..n).step_by(32).enumerate() { BODY }` is `c = 0; o = 0; while o < n { BODY; c += 1; o += 32 }`
-// with the addition checked (the range iterator ends when the next offset does not exist); BODY ($1) is carried over verbatim
+// with the addition checked (the range iterator ends when the next offset does not exist); BODY ($1) and the step ($2) are carried over verbatim
 //@rw R-STEPBY-ENUM
 //@old
-for (count, internal_offset) in (0..size_limit).step_by(32).enumerate() {
+for (count, internal_offset) in (0..size_limit).step_by($2).enumerate() {
 $1
             }
         } else {
@@ -467,13 +465,14 @@ let mut count: usize = 0;
             while internal_offset < size_limit {
 $1
                 count = count + 1;
-                internal_offset = match internal_offset.checked_add(32) { Some(next) => next, None => usize::MAX };
+                internal_offset = match internal_offset.checked_add($2) { Some(next) => next, None => usize::MAX };
             }
         } else {
 //@spec
         ensures
             stopped(r) ==> stopped_at_first_stop(old(vm), final(vm)),                                                     //@ob C13.wd.CodeCopy.stopped_at_the_first_stop_answer
             !stopped(r) ==> every_poll_continued(old(vm), final(vm)),                                                      //@ob C13.wd.CodeCopy.every_poll_continued_unless_stopped
+            stopped(r) <==> some_poll_answered_stop(old(vm), final(vm)),                                                  //@ob C13.wd.CodeCopy.stopped_iff_some_poll_answered_stop
             r is Ok ==> old(vm).has_thread() && old(vm).stack().len() >= 3 && final(vm).polls() - old(vm).polls()
                 == polls_due(iterations_for(*item(old(vm).stack(), 3), CONTRACT_MAXIMUM_SIZE_BYTES), old(vm).interval() as nat),      //@ob C13.wd.CodeCopy.polls_once_per_interval
             old(vm).has_thread() && old(vm).stack().len() >= 3 ==> final(vm).polls() - old(vm).polls()
@@ -483,10 +482,15 @@ $1
             final(vm).interval() == old(vm).interval() && final(vm).config == old(vm).config,
 //@loop 1
                 invariant
-                    copy_loop_inv(old(vm), vm, count, internal_offset, size_limit, polling_interval),
+                    polling_interval == old(vm).interval() && polling_interval >= 1 && vm.interval() == old(vm).interval(),
+                    internal_offset < size_limit ==> internal_offset as nat == 32 * (count as nat),                 //@ob C13.wd.CodeCopy.loop.offset_is_32_times_count
+                    internal_offset >= size_limit ==> count as nat == steps_of_32(size_limit as nat),               //@ob C13.wd.CodeCopy.loop.ends_after_all_steps
+                    count as nat <= steps_of_32(size_limit as nat),
+                    vm.polls() - old(vm).polls() == polls_due(count as nat, polling_interval as nat),               //@ob C13.wd.CodeCopy.loop.polls_once_per_interval
+                    every_poll_continued(old(vm), vm),                                                              //@ob C13.wd.CodeCopy.loop.goes_on_only_if_every_poll_continued
                     vm.has_thread() && vm.stack() == old(vm).stack().subrange(0, old(vm).stack().len() - 3) && vm.config == old(vm).config,
                     old(vm).has_thread() && old(vm).stack().len() >= 3,
-                    steps_of_32(size_limit as nat) == iterations_for(*item(old(vm).stack(), 3), CONTRACT_MAXIMUM_SIZE_BYTES),
+                    steps_of_32(size_limit as nat) == iterations_for(*item(old(vm).stack(), 3), CONTRACT_MAXIMUM_SIZE_BYTES),      //@ob C13.wd.CodeCopy.loop.iterations_are_those_of_the_bounded_size
                 decreases (if internal_offset < size_limit { size_limit - internal_offset } else { 0 }),
 //@proof loopstart #1
                 proof {
@@ -497,8 +501,6 @@ $1
                 }
 //@proof entry
         proof { lemma_polls_due_zero(vm.interval() as nat); }
-//@proof before "let polling_interval"
-            proof { lemma_steps_of_32(size_limit as nat, 0); }
 //@end
 }
 
@@ -509,10 +511,10 @@ $1
 //@extract file=src/opcode/memory.rs path="impl Opcode for ExtCodeCopy|fn execute"
 //@ret r
 // R-STEPBY-ENUM: `for (c, o) in (0..n).step_by(32).enumerate() { BODY }` is `c = 0; o = 0; while o < n { BODY; c += 1; o += 32 }`
-// with the addition checked (the range iterator ends when the next offset does not exist); BODY ($1) is carried over verbatim
+// with the addition checked (the range iterator ends when the next offset does not exist); BODY ($1) and the step ($2) are carried over verbatim
 //@rw R-STEPBY-ENUM
 //@old
-for (count, internal_offset) in (0..size_limit).step_by(32).enumerate() {
+for (count, internal_offset) in (0..size_limit).step_by($2).enumerate() {
 $1
             }
         } else {
@@ -522,13 +524,14 @@ let mut count: usize = 0;
             while internal_offset < size_limit {
 $1
                 count = count + 1;
-                internal_offset = match internal_offset.checked_add(32) { Some(next) => next, None => usize::MAX };
+                internal_offset = match internal_offset.checked_add($2) { Some(next) => next, None => usize::MAX };
             }
         } else {
 //@spec
         ensures
             stopped(r) ==> stopped_at_first_stop(old(vm), final(vm)),                                                     //@ob C13.wd.ExtCodeCopy.stopped_at_the_first_stop_answer
             !stopped(r) ==> every_poll_continued(old(vm), final(vm)),                                                      //@ob C13.wd.ExtCodeCopy.every_poll_continued_unless_stopped
+            stopped(r) <==> some_poll_answered_stop(old(vm), final(vm)),                                                  //@ob C13.wd.ExtCodeCopy.stopped_iff_some_poll_answered_stop
             r is Ok ==> old(vm).has_thread() && old(vm).stack().len() >= 4 && final(vm).polls() - old(vm).polls()
                 == polls_due(iterations_for(*item(old(vm).stack(), 4), CONTRACT_MAXIMUM_SIZE_BYTES), old(vm).interval() as nat),      //@ob C13.wd.ExtCodeCopy.polls_once_per_interval
             old(vm).has_thread() && old(vm).stack().len() >= 4 ==> final(vm).polls() - old(vm).polls()
@@ -538,10 +541,15 @@ $1
             final(vm).interval() == old(vm).interval() && final(vm).config == old(vm).config,
 //@loop 1
                 invariant
-                    copy_loop_inv(old(vm), vm, count, internal_offset, size_limit, polling_interval),
+                    polling_interval == old(vm).interval() && polling_interval >= 1 && vm.interval() == old(vm).interval(),
+                    internal_offset < size_limit ==> internal_offset as nat == 32 * (count as nat),                 //@ob C13.wd.ExtCodeCopy.loop.offset_is_32_times_count
+                    internal_offset >= size_limit ==> count as nat == steps_of_32(size_limit as nat),               //@ob C13.wd.ExtCodeCopy.loop.ends_after_all_steps
+                    count as nat <= steps_of_32(size_limit as nat),
+                    vm.polls() - old(vm).polls() == polls_due(count as nat, polling_interval as nat),               //@ob C13.wd.ExtCodeCopy.loop.polls_once_per_interval
+                    every_poll_continued(old(vm), vm),                                                              //@ob C13.wd.ExtCodeCopy.loop.goes_on_only_if_every_poll_continued
                     vm.has_thread() && vm.stack() == old(vm).stack().subrange(0, old(vm).stack().len() - 4) && vm.config == old(vm).config,
                     old(vm).has_thread() && old(vm).stack().len() >= 4,
-                    steps_of_32(size_limit as nat) == iterations_for(*item(old(vm).stack(), 4), CONTRACT_MAXIMUM_SIZE_BYTES),
+                    steps_of_32(size_limit as nat) == iterations_for(*item(old(vm).stack(), 4), CONTRACT_MAXIMUM_SIZE_BYTES),      //@ob C13.wd.ExtCodeCopy.loop.iterations_are_those_of_the_bounded_size
                 decreases (if internal_offset < size_limit { size_limit - internal_offset } else { 0 }),
 //@proof loopstart #1
                 proof {
@@ -552,8 +560,6 @@ $1
                 }
 //@proof entry
         proof { lemma_polls_due_zero(vm.interval() as nat); }
-//@proof before "let polling_interval"
-            proof { lemma_steps_of_32(size_limit as nat, 0); }
 //@end
 }
 
@@ -564,10 +570,10 @@ $1
 //@extract file=src/opcode/memory.rs path="impl Opcode for ReturnDataCopy|fn execute"
 //@ret r
 // R-STEPBY-ENUM: `for (c, o) in (0..n).step_by(32).enumerate() { BODY }` is `c = 0; o = 0; while o < n { BODY; c += 1; o += 32 }`
-// with the addition checked (the range iterator ends when the next offset does not exist); BODY ($1) is carried over verbatim
+// with the addition checked (the range iterator ends when the next offset does not exist); BODY ($1) and the step ($2) are carried over verbatim
 //@rw R-STEPBY-ENUM
 //@old
-for (count, internal_offset) in (0..size_limit).step_by(32).enumerate() {
+for (count, internal_offset) in (0..size_limit).step_by($2).enumerate() {
 $1
             }
         } else {
@@ -577,13 +583,14 @@ let mut count: usize = 0;
             while internal_offset < size_limit {
 $1
                 count = count + 1;
-                internal_offset = match internal_offset.checked_add(32) { Some(next) => next, None => usize::MAX };
+                internal_offset = match internal_offset.checked_add($2) { Some(next) => next, None => usize::MAX };
             }
         } else {
 //@spec
         ensures
             stopped(r) ==> stopped_at_first_stop(old(vm), final(vm)),                                                     //@ob C13.wd.ReturnDataCopy.stopped_at_the_first_stop_answer
             !stopped(r) ==> every_poll_continued(old(vm), final(vm)),                                                      //@ob C13.wd.ReturnDataCopy.every_poll_continued_unless_stopped
+            stopped(r) <==> some_poll_answered_stop(old(vm), final(vm)),                                                  //@ob C13.wd.ReturnDataCopy.stopped_iff_some_poll_answered_stop
             r is Ok ==> old(vm).has_thread() && old(vm).stack().len() >= 3 && final(vm).polls() - old(vm).polls()
                 == polls_due(iterations_for(*item(old(vm).stack(), 3), old(vm).config.single_memory_operation_size_limit), old(vm).interval() as nat),      //@ob C13.wd.ReturnDataCopy.polls_once_per_interval
             old(vm).has_thread() && old(vm).stack().len() >= 3 ==> final(vm).polls() - old(vm).polls()
@@ -593,10 +600,15 @@ $1
             final(vm).interval() == old(vm).interval() && final(vm).config == old(vm).config,
 //@loop 1
                 invariant
-                    copy_loop_inv(old(vm), vm, count, internal_offset, size_limit, polling_interval),
+                    polling_interval == old(vm).interval() && polling_interval >= 1 && vm.interval() == old(vm).interval(),
+                    internal_offset < size_limit ==> internal_offset as nat == 32 * (count as nat),                 //@ob C13.wd.ReturnDataCopy.loop.offset_is_32_times_count
+                    internal_offset >= size_limit ==> count as nat == steps_of_32(size_limit as nat),               //@ob C13.wd.ReturnDataCopy.loop.ends_after_all_steps
+                    count as nat <= steps_of_32(size_limit as nat),
+                    vm.polls() - old(vm).polls() == polls_due(count as nat, polling_interval as nat),               //@ob C13.wd.ReturnDataCopy.loop.polls_once_per_interval
+                    every_poll_continued(old(vm), vm),                                                              //@ob C13.wd.ReturnDataCopy.loop.goes_on_only_if_every_poll_continued
                     vm.has_thread() && vm.stack() == old(vm).stack().subrange(0, old(vm).stack().len() - 3) && vm.config == old(vm).config,
                     old(vm).has_thread() && old(vm).stack().len() >= 3,
-                    steps_of_32(size_limit as nat) == iterations_for(*item(old(vm).stack(), 3), old(vm).config.single_memory_operation_size_limit),
+                    steps_of_32(size_limit as nat) == iterations_for(*item(old(vm).stack(), 3), old(vm).config.single_memory_operation_size_limit),      //@ob C13.wd.ReturnDataCopy.loop.iterations_are_those_of_the_bounded_size
                 decreases (if internal_offset < size_limit { size_limit - internal_offset } else { 0 }),
 //@proof loopstart #1
                 proof {
@@ -607,8 +619,6 @@ $1
                 }
 //@proof entry
         proof { lemma_polls_due_zero(vm.interval() as nat); }
-//@proof before "let polling_interval"
-            proof { lemma_steps_of_32(size_limit as nat, 0); }
 //@end
 }
 } // verus!
@@ -629,7 +639,7 @@ verus! {
 // R-STEPBY-ENUM: as in mod memory
 //@rw R-STEPBY-ENUM
 //@old
-for (count, internal_offset) in (0..size_limit).step_by(32).enumerate() {
+for (count, internal_offset) in (0..size_limit).step_by($2).enumerate() {
 $1
         }
     } else {
@@ -639,7 +649,7 @@ let mut count: usize = 0;
         while internal_offset < size_limit {
 $1
             count = count + 1;
-            internal_offset = match internal_offset.checked_add(32) { Some(next) => next, None => usize::MAX };
+            internal_offset = match internal_offset.checked_add($2) { Some(next) => next, None => usize::MAX };
         }
     } else {
 //@spec
@@ -647,6 +657,7 @@ $1
         ensures
             stopped(r) ==> stopped_at_first_stop(old(vm), final(vm)),                                                     //@ob C13.wd.store_return_data.stopped_at_the_first_stop_answer
             !stopped(r) ==> every_poll_continued(old(vm), final(vm)),                                                      //@ob C13.wd.store_return_data.every_poll_continued_unless_stopped
+            stopped(r) <==> some_poll_answered_stop(old(vm), final(vm)),                                                  //@ob C13.wd.store_return_data.stopped_iff_some_poll_answered_stop
             r is Ok ==> old(vm).has_thread() && final(vm).polls() - old(vm).polls()
                 == polls_due(iterations_for(**ret_size, old(vm).config.single_memory_operation_size_limit), old(vm).interval() as nat),      //@ob C13.wd.store_return_data.polls_once_per_interval
             final(vm).polls() - old(vm).polls()
@@ -657,9 +668,14 @@ $1
             final(vm).interval() == old(vm).interval() && final(vm).config == old(vm).config,
 //@loop 1
             invariant
-                copy_loop_inv(old(vm), vm, count, internal_offset, size_limit, polling_interval),
+                polling_interval == old(vm).interval() && polling_interval >= 1 && vm.interval() == old(vm).interval(),
+                internal_offset < size_limit ==> internal_offset as nat == 32 * (count as nat),                 //@ob C13.wd.store_return_data.loop.offset_is_32_times_count
+                internal_offset >= size_limit ==> count as nat == steps_of_32(size_limit as nat),               //@ob C13.wd.store_return_data.loop.ends_after_all_steps
+                count as nat <= steps_of_32(size_limit as nat),
+                vm.polls() - old(vm).polls() == polls_due(count as nat, polling_interval as nat),               //@ob C13.wd.store_return_data.loop.polls_once_per_interval
+                every_poll_continued(old(vm), vm),                                                              //@ob C13.wd.store_return_data.loop.goes_on_only_if_every_poll_continued
                 vm.has_thread() && old(vm).has_thread() && vm.stack() == old(vm).stack() && vm.ip() == old(vm).ip() && vm.config == old(vm).config,
-                steps_of_32(size_limit as nat) == iterations_for(**size_operand, old(vm).config.single_memory_operation_size_limit),
+                steps_of_32(size_limit as nat) == iterations_for(**size_operand, old(vm).config.single_memory_operation_size_limit),      //@ob C13.wd.store_return_data.loop.iterations_are_those_of_the_bounded_size
             decreases (if internal_offset < size_limit { size_limit - internal_offset } else { 0 }),
 //@proof loopstart #1
             proof {
@@ -672,8 +688,6 @@ $1
     // (the parameter `ret_size` is shadowed by its folded form on the second line of the body)
     let ghost size_operand: &RuntimeBoxedVal = ret_size;
     proof { lemma_polls_due_zero(vm.interval() as nat); }
-//@proof before "let polling_interval"
-        proof { lemma_steps_of_32(size_limit as nat, 0); }
 //@end
 } // verus!
 }
